@@ -184,7 +184,7 @@ def gen_ops(m, pal, tier):
     for k in (0, 1, 2):
         if n + k <= MAX_N:
             ops.append(["offset", k])
-    ops += [["dearom"], ["deorder"], ["copy"]]
+    ops += [["dearom"], ["deorder"], ["copy"], ["concat1"]]
     # indexing
     if n <= 4:
         for bits in itertools.product([False, True], repeat=n):
@@ -281,7 +281,7 @@ def apply_model(m, op):
         r = m.copy()
         r.b = {p: 0 for p in r.b}
         return r
-    if k == "copy":
+    if k in ("copy", "concat1"):
         return m.copy()
     if k == "index":
         return m_index(m, dec_index(op[1]))
@@ -327,6 +327,8 @@ def apply_impl(bl, op):
         return bl
     if k == "copy":
         return bl.copy()
+    if k == "concat1":
+        return BondList.concatenate([bl])
     if k == "index":
         return bl[dec_index(op[1])]
     raise ValueError(op)
@@ -744,6 +746,31 @@ def step_check(ctx, init, pal, n0, rows0, hist, m, op, do_observe=True, base=Non
                       "bond set disagrees with the reference mapping after %s" % op[0], case,
                       expected=[m2.n, sorted(exp)], observed=[bl2.get_atom_count(), sorted(got)])
         return None, None, False
+    if shared_base:
+        # an operation that returns a list returns a NEW list (the reference mapping of the result is
+        # a new dict): whatever is done to the result afterwards must not reach the operand - checked
+        # by identity on every transition and by editing a second result once per (operation, state)
+        how = "is_operand" if bl2 is base else None
+        lk = ("distinct", op[0], canon(bl2, m2))
+        if how is None and lk not in ctx._observed:
+            ctx._observed.add(lk)
+            r2 = apply_impl(base, op)
+            if r2 is base:
+                how = "is_operand"
+            else:
+                r2.remove_bond_order()
+                if r2.get_atom_count() >= 2:
+                    r2.add_bond(0, r2.get_atom_count() - 1, 3)
+                    r2.remove_bonds_to(0)
+                r2.offset_indices(1)
+                still = {tuple(int(x) for x in t) for t in base.as_set()}
+                if still != {(i, j, t) for (i, j), t in m.b.items()} or base.get_atom_count() != m.n:
+                    how = "edit_reaches_operand"
+        if how:
+            ctx.violation("history|%s|result_not_distinct|%s" % (op_class(op, m.n), how),
+                          "%s returned a list that is, or shares state with, its operand: editing the result "
+                          "changed the operand" % op[0], case, expected="operand unchanged", observed=how)
+            return None, None, False
     if do_observe and (canon(bl2, m2) not in ctx._observed):
         ctx._observed.add(canon(bl2, m2))
         bad = observe(bl2, m2)
